@@ -1232,6 +1232,183 @@ Lemma topological_order_outcomes E :
   (exists order, topological_order E = Ok order) \/ topological_order E = Fail ECycle.
 Proof. destruct (topological_order_cases E) as [out [_ [[_ H]|[_ H]]]]; eauto. Qed.
 
+(* ------------------------------------------------------------------ diagnostics exactly for cycles; outcome table *)
+Local Open Scope nat_scope.
+(* some index below n is missing from a short duplicate-free list *)
+Lemma missing_index (out : list nat) : forall n, NoDup out -> (forall i, In i out -> i < n) -> length out <> n ->
+  exists i, i < n /\ ~ In i out.
+Proof.
+  intros n ND LT NE.
+  assert (D : (forall i, i < n -> In i out) \/ exists i, i < n /\ ~ In i out).
+  { clear ND LT NE. induction n as [|n IH]; [left; intros; lia|].
+    destruct IH as [All|[i [Hi Hn]]]; [|right; exists i; split; [lia|exact Hn]].
+    destruct (in_dec Nat.eq_dec n out) as [Hin|Hout]; [left|right; exists n; split; [lia|exact Hout]].
+    intros i Hi. destruct (Nat.eq_dec i n) as [->|Ne]; [exact Hin|apply All; lia]. }
+  destruct D as [All|Ex]; [exfalso|exact Ex]. apply NE. apply Nat.le_antisymm.
+  - rewrite <- (seq_length n 0). apply NoDup_incl_length; [exact ND|]. intros i Hi. apply in_seq. specialize (LT i Hi). lia.
+  - rewrite <- (seq_length n 0). apply NoDup_incl_length; [apply seq_NoDup|]. intros i Hi. apply in_seq in Hi. apply All. lia.
+Qed.
+
+(* an edge of the graph comes from a field that contains the target by value *)
+Lemma deps_field E i j d : nth_error E i = Some d -> In j (deps E i) ->
+  exists t d', In t (sfields d) /\ nth_error E j = Some d' /\ field_dep t = Some (sname d').
+Proof.
+  intros Ed H. unfold deps in H. rewrite Ed in H. unfold dep_idxs in H.
+  apply (proj1 (omap_In _ _ _)) in H as [nm [H1 H2]]. apply idx_of_spec in H2 as [d' [A1 A2]].
+  unfold dep_names in H1. apply filter_In in H1 as [H1 _]. apply (proj1 (ndedup_In _ _)) in H1.
+  apply (proj1 (omap_In _ _ _)) in H1 as [t [T1 T2]]. exists t, d'. rewrite A2. auto.
+Qed.
+
+(* the layout loop only ever fails with Unresolved / TooLarge (EInternal: index out of range, never happens) *)
+Lemma bind_fail {A B} (r : res A) (f : A -> res B) e :
+  bind r f = Fail e -> r = Fail e \/ exists a, r = Ok a /\ f a = Fail e.
+Proof. destruct r as [a|e']; cbn; [intro H; right; exists a; auto|intro H; left; inversion H; reflexivity]. Qed.
+
+Definition lay_err (e : err) : Prop := e = EUnresolved \/ e = ETooLarge \/ e = EInternal.
+
+Lemma add32_err a b e : add32 a b = Fail e -> lay_err e.
+Proof. unfold add32. destruct (W32 <=? a + b)%N; [|discriminate]. intro H. inversion H. right. left. auto. Qed.
+Lemma align_to_err o a e : align_to o a = Fail e -> lay_err e.
+Proof.
+  unfold align_to. intro H. apply bind_fail in H as [H|[u [_ H]]]; [eapply add32_err; eauto|discriminate].
+Qed.
+Lemma resolved_err m t e : resolved_layout m t = Fail e -> lay_err e.
+Proof.
+  induction t; cbn [resolved_layout]; try discriminate.
+  - destruct (rlookup m name); [discriminate|]. intro H. inversion H. left. auto.
+  - intro H. apply bind_fail in H as [H|[el [_ H]]]; [auto|].
+    unfold array_layout in H. destruct (W32 <=? fst el * n)%N; [|discriminate]. inversion H. right. left. auto.
+Qed.
+Lemma fields_err m fs : forall o ma e, fields_layout m fs o ma = Fail e -> lay_err e.
+Proof.
+  induction fs as [|t fs IH]; intros o ma e H; cbn [fields_layout] in H; [discriminate|].
+  apply bind_fail in H as [H|[fl [_ H]]]; [eapply resolved_err; eauto|].
+  apply bind_fail in H as [H|[o' [_ H]]]; [eapply align_to_err; eauto|].
+  apply bind_fail in H as [H|[e' [_ H]]]; [eapply add32_err; eauto|].
+  apply bind_fail in H as [H|[[[offs e2] ma'] [_ H]]]; [eapply IH; eauto|discriminate].
+Qed.
+Lemma struct_err m fs e : struct_layout m fs = Fail e -> lay_err e.
+Proof.
+  unfold struct_layout. intro H. apply bind_fail in H as [H|[[[offs e2] ma] [_ H]]]; [eapply fields_err; eauto|].
+  apply bind_fail in H as [H|[sz [_ H]]]; [eapply align_to_err; eauto|discriminate].
+Qed.
+Lemma lay_fail E order : forall m offs e, lay E order m offs = Fail e -> lay_err e.
+Proof.
+  induction order as [|i order IH]; intros m offs e H; cbn [lay] in H; [discriminate|].
+  destruct (nth_error E i) as [d|]; [|inversion H; right; right; auto].
+  apply bind_fail in H as [H|[[[os sz] al] [_ H]]]; [eapply struct_err; eauto|eapply IH; eauto].
+Qed.
+
+(* the two recursion diagnostics are only ever given for a by-value cycle *)
+Lemma diagnostic_sound E :
+  compute_layouts E = Fail ESelfRef \/ compute_layouts E = Fail ECycle -> byvalue_cycle E.
+Proof.
+  unfold compute_layouts. destruct (has_self_ref E) eqn:SR.
+  - intros _. unfold has_self_ref in SR. apply existsb_exists in SR as [d [Hd H]].
+    unfold self_ref in H. apply existsb_exists in H as [t [Ht H]]. apply refs_by_value_dep in H.
+    exists (fun nm => nm = sname d). split; [eauto|]. intros nm ->. exists d, t, (sname d). auto.
+  - intro H.
+    assert (T : topological_order E = Fail ECycle).
+    { destruct (topological_order_cases E) as [out [_ [[_ X]|[_ X]]]]; [|exact X]. exfalso.
+      rewrite X in H. cbn [bind] in H.
+      destruct H as [H|H]; apply lay_fail in H; destruct H as [H|[H|H]]; discriminate. }
+    clear H. destruct (topological_order_cases E) as [out [F [[_ X]|[L _]]]]; [congruence|].
+    destruct (missing_index out (length E) (f_nd _ _ F) (f_lt _ _ F) L) as [i0 [Hi0 Hn0]].
+    exists (fun nm => exists i d, nth_error E i = Some d /\ sname d = nm /\ ~ In i out). split.
+    + destruct (nth_error E i0) as [d0|] eqn:E0; [|apply nth_error_None in E0; lia]. exists (sname d0), i0, d0. auto.
+    + intros nm [i [d [Ed [<- Hn]]]].
+      assert (Hi : i < length E) by (apply nth_error_Some; congruence).
+      destruct (f_stuck _ _ F i Hi Hn) as [j [J1 J2]].
+      destruct (deps_field E i j d Ed J1) as [t [d' [T1 [T2 T3]]]].
+      exists d, t, (sname d'). repeat split; auto; [eapply nth_error_In; eauto|]. exists j, d'. auto.
+Qed.
+
+(* the recursion diagnostics are given exactly for the by-value cycles *)
+Lemma diagnostic_iff_cycle E : NoDup (map sname E) ->
+  (compute_layouts E = Fail ESelfRef \/ compute_layouts E = Fail ECycle) <-> byvalue_cycle E.
+Proof. intro ND. split; [apply diagnostic_sound|apply cycle_diagnosed_lemma; exact ND]. Qed.
+
+(* well-formed environments have no by-value cycle, and are never diagnosed as recursive *)
+Lemma wf_env_acyclic E : wf_env E -> ~ byvalue_cycle E.
+Proof.
+  intros W C. destruct (cycle_diagnosed_lemma E (wf_names _ W) C) as [H|H];
+    destruct (layout_matches_sysv_lemma E W) as [[_ [offs [m [X _]]]]|[_ X]]; congruence.
+Qed.
+
+(* conversely: unique names, by-value names defined and no by-value cycle make a well-formed environment *)
+Lemma acyclic_wf_env E : NoDup (map sname E) ->
+  (forall d t nm, In d E -> In t (sfields d) -> field_dep t = Some nm -> In nm (map sname E)) ->
+  ~ byvalue_cycle E -> wf_env E.
+Proof.
+  intros ND Def NC. constructor; auto.
+  assert (SR : has_self_ref E = false).
+  { destruct (has_self_ref E) eqn:SR; [|reflexivity]. exfalso. apply NC. apply diagnostic_sound.
+    left. unfold compute_layouts. rewrite SR. reflexivity. }
+  destruct (topological_order_cases E) as [out [F [[L X]|[L X]]]].
+  2:{ exfalso. apply NC. apply diagnostic_sound. right. unfold compute_layouts. rewrite SR, X. reflexivity. }
+  (* rank = position from the end of the emitted list: dependencies were emitted earlier *)
+  pose (pos := fix pos (l : list nat) (i : nat) : nat :=
+                 match l with [] => 0 | x :: r => if Nat.eqb x i then S (length r) else pos r i end).
+  assert (P1 : forall l i, In i l -> 0 < pos l i <= length l).
+  { induction l as [|x r IH]; intros i Hi; [destruct Hi|]. cbn [pos length]. destruct (Nat.eqb_spec x i); [lia|].
+    destruct Hi as [->|Hi]; [congruence|]. specialize (IH i Hi). lia. }
+  assert (P2 : forall l, NoDup l -> topo E l -> forall i j, In i l -> In j (deps E i) -> pos l j < pos l i).
+  { induction l as [|x r IH]; intros NDl T i j Hi Hj; [destruct Hi|]. inversion NDl as [|? ? Hx NDr]; subst.
+    destruct T as [T1 T2]. cbn [pos]. destruct (Nat.eqb_spec x i) as [->|Ne].
+    - specialize (T1 j Hj). destruct (Nat.eqb_spec i j) as [->|Nij]; [contradiction|]. specialize (P1 r j T1). lia.
+    - destruct Hi as [->|Hi]; [congruence|]. destruct (Nat.eqb_spec x j) as [->|Nxj].
+      + exfalso. apply Hx. eapply topo_closed; eauto.
+      + eapply IH; eauto. }
+  exists (fun nm => match idx_of E nm with Some i => pos out i | None => 0 end).
+  intros d t nm Hd Ht Hf. apply In_nth_error in Hd as [i Ed].
+  assert (Ne : nm <> sname d) by (intro X'; apply (no_self_ref E SR d t (nth_error_In _ _ Ed) Ht); congruence).
+  destruct (dep_edge E i d t nm Ed Ht Hf Ne (Def d t nm (nth_error_In _ _ Ed) Ht Hf)) as [j [d' [J0 [J1 [J2 J3]]]]].
+  rewrite J0.
+  assert (Ii : idx_of E (sname d) = Some i).
+  { destruct (idx_of E (sname d)) as [k|] eqn:K; [|exfalso; eapply idx_of_defined; [|exact K]; apply in_map; eapply nth_error_In; eauto].
+    destruct (idx_of_spec E _ k K) as [dk [K1 K2]]. f_equal.
+    apply (proj1 (NoDup_nth_error (map sname E)) ND).
+    - rewrite map_length. apply nth_error_Some. congruence.
+    - rewrite (map_nth_error sname k E K1), (map_nth_error sname i E Ed). congruence. }
+  rewrite Ii. apply (P2 out (f_nd _ _ F) (f_topo _ _ F)); [|exact J1].
+  apply (kfinal_full E out F L). apply nth_error_Some. congruence.
+Qed.
+
+Lemma wf_env_iff_acyclic E :
+  wf_env E <-> (NoDup (map sname E) /\ all_defined E /\ ~ byvalue_cycle E).
+Proof.
+  split.
+  - intro W. split; [apply (wf_names _ W)|]. split; [exact (wf_defined _ W)|apply wf_env_acyclic; exact W].
+  - intros [ND [Def NC]]. apply acyclic_wf_env; assumption.
+Qed.
+
+(* the complete outcome table of compute_layouts on uniquely named, fully defined definitions *)
+Lemma outcome_table E : NoDup (map sname E) -> all_defined E ->
+  (byvalue_cycle E /\ (compute_layouts E = Fail ESelfRef \/ compute_layouts E = Fail ECycle))
+  \/ (~ byvalue_cycle E /\ ~ env_fits E /\ compute_layouts E = Fail ETooLarge)
+  \/ (~ byvalue_cycle E /\ env_fits E /\ exists offs m, compute_layouts E = Ok (offs, m)).
+Proof.
+  intros ND Def.
+  destruct (compute_layouts E) as [[offs m]|e] eqn:R.
+  - right. right.
+    assert (NC : ~ byvalue_cycle E) by (intro C; destruct (cycle_diagnosed_lemma E ND C); congruence).
+    pose proof (acyclic_wf_env E ND Def NC) as W.
+    destruct (layout_matches_sysv_lemma E W) as [[F _]|[_ X]]; [|congruence]. eauto.
+  - destruct e.
+    + left. split; [apply diagnostic_sound; auto|auto].
+    + left. split; [apply diagnostic_sound; auto|auto].
+    + exfalso. assert (NC : ~ byvalue_cycle E) by (intro C; destruct (cycle_diagnosed_lemma E ND C); congruence).
+      destruct (layout_matches_sysv_lemma E (acyclic_wf_env E ND Def NC)) as [[_ [o [m [X _]]]]|[_ X]]; congruence.
+    + right. left. assert (NC : ~ byvalue_cycle E) by (intro C; destruct (cycle_diagnosed_lemma E ND C); congruence).
+      destruct (layout_matches_sysv_lemma E (acyclic_wf_env E ND Def NC)) as [[_ [o [m [X _]]]]|[NF X]]; [congruence|auto].
+    + exfalso. assert (NC : ~ byvalue_cycle E) by (intro C; destruct (cycle_diagnosed_lemma E ND C); congruence).
+      destruct (layout_matches_sysv_lemma E (acyclic_wf_env E ND Def NC)) as [[_ [o [m [X _]]]]|[_ X]]; congruence.
+    + exfalso. assert (NC : ~ byvalue_cycle E) by (intro C; destruct (cycle_diagnosed_lemma E ND C); congruence).
+      destruct (layout_matches_sysv_lemma E (acyclic_wf_env E ND Def NC)) as [[_ [o [m [X _]]]]|[_ X]]; congruence.
+Qed.
+Local Close Scope nat_scope.
+Local Open Scope N_scope.
+
 (* ------------------------------------------------------------------ concrete environments *)
 Definition example_env : list sdef :=
   [(2, [TPrim PU8; TArray (TStruct 1) 3; TPrim PU8; TPtr (TStruct 2)]);
